@@ -490,7 +490,7 @@ func (b *Body) invalidEdgeLeaves(fn *ssa.Function, gates []gateInfo) (bool, stri
 
 func ruleMergeWire(c *Ctx) {
 	for _, b := range c.bodies() {
-		do := fnOf(b.Lib, "doMergePatch")
+		do := b.roleFn("doMergePatch")
 		if do == nil {
 			c.L.add("R-MERGEWIRE", b.Name, "anchor doMergePatch", "", Undecided, "doMergePatch does not resolve", false)
 			continue
